@@ -18,9 +18,11 @@ import (
 	"net"
 	"os"
 	"os/exec"
+	"runtime"
 	"sort"
 	"strings"
 	"sync"
+	"syscall"
 	"testing"
 	"time"
 
@@ -210,6 +212,32 @@ type v13Conn struct {
 	sent    []v13Pkt
 	ch      chan v13Pkt
 	deliver func(p v13Pkt) // called outside mu with src-addressed packet
+
+	// transient send failures (the kernel refusing a datagram): a refused call is
+	// neither logged nor delivered. failNext is consumed call by call (sequential
+	// mode); failPlan[dst][k] decides the k-th call towards dst (concurrent mode,
+	// independent of the schedule because every writer has its own dst).
+	failNext  []error
+	failPlan  map[string][]error
+	failCalls map[string]int
+	refused   int
+}
+
+// the errors a UDP socket hands out when its send queue is momentarily full, bare and wrapped
+// the way package net wraps them, plus a generic temporary net.Error and a hard error
+type v13TempErr struct{}
+
+func (v13TempErr) Error() string   { return "v13: temporary send failure" }
+func (v13TempErr) Timeout() bool   { return false }
+func (v13TempErr) Temporary() bool { return true }
+
+var v13SendErrs = []error{
+	syscall.ENOBUFS,
+	syscall.EAGAIN,
+	&net.OpError{Op: "write", Net: "udp", Err: os.NewSyscallError("sendto", syscall.ENOBUFS)},
+	&net.OpError{Op: "write", Net: "udp", Err: os.NewSyscallError("sendmsg", syscall.EAGAIN)},
+	&net.OpError{Op: "write", Net: "udp", Err: v13TempErr{}},
+	errors.New("v13: hard send failure"),
 }
 
 func (c *v13Conn) ReadFrom(p []byte) (int, net.Addr, error) {
@@ -231,8 +259,31 @@ func (c *v13Conn) ReadFrom(p []byte) (int, net.Addr, error) {
 }
 
 func (c *v13Conn) WriteTo(p []byte, addr net.Addr) (int, error) {
-	cp := append([]byte(nil), p...)
+	if c.ch != nil {
+		// concurrent mode: give other goroutines a chance before the datagram is taken off
+		// the caller's buffer (a real sendto may be preempted here just as well)
+		for i := 0; i < 3; i++ {
+			runtime.Gosched()
+		}
+	}
 	c.mu.Lock()
+	var ferr error
+	if len(c.failNext) > 0 {
+		ferr, c.failNext = c.failNext[0], c.failNext[1:]
+	} else if c.failPlan != nil && addr != nil {
+		a := addr.String()
+		k := c.failCalls[a]
+		c.failCalls[a] = k + 1
+		if plan := c.failPlan[a]; k < len(plan) {
+			ferr = plan[k]
+		}
+	}
+	if ferr != nil {
+		c.refused++
+		c.mu.Unlock()
+		return 0, ferr
+	}
+	cp := append([]byte(nil), p...)
 	c.sent = append(c.sent, v13Pkt{cp, addr})
 	c.mu.Unlock()
 	if c.deliver != nil {
@@ -484,20 +535,53 @@ func TestVerifC13_WireRoundTripJunk(t *testing.T) {
 			if rapid.Bool().Draw(rt, "dir") {
 				from, to = Y, X
 			}
-			switch rapid.SampledFrom([]int{0, 0, 0, 0, 1, 1, 1, 2, 2, 2, 3, 4, 4}).Draw(rt, "op") {
-			case 0: // write through the wrapper
+			op := rapid.SampledFrom([]int{0, 0, 0, 0, 1, 1, 1, 2, 2, 2, 3, 4, 4, 5}).Draw(rt, "op")
+			switch op {
+			case 0, 5: // write through the wrapper; 5: the inner socket refuses the datagram (transiently) once or twice
 				p := v13GenPayload(rt)
 				keep := append([]byte(nil), p...)
 				dst := v13Addr(7, 7000+i)
+				var injected []error
+				if op == 5 {
+					e := rapid.SampledFrom(v13SendErrs).Draw(rt, "sendErr")
+					injected = []error{e}
+					if rapid.Bool().Draw(rt, "refuseTwice") {
+						injected = append(injected, e)
+					}
+					from.fake.mu.Lock()
+					from.fake.failNext = append([]error(nil), injected...)
+					from.fake.mu.Unlock()
+					cls["inner-send-refused"] = true
+				}
 				before := from.fake.nsent()
 				n, err := from.w.WriteTo(p, dst)
 				trace = append(trace, fmt.Sprintf("%s.write(%d)", from.name, len(p)))
-				if err != nil || n != len(keep) {
-					rt.Fatalf("C13: %s.WriteTo(%d bytes) returned (%d, %v), want (%d, nil); history=%v", from.name, len(keep), n, err, len(keep), trace)
-				}
 				from.fake.mu.Lock()
 				sent := from.fake.sent[before:]
+				from.fake.failNext = nil
 				from.fake.mu.Unlock()
+				if op == 5 {
+					trace[len(trace)-1] += fmt.Sprintf("[inner refused x%d: %v]->(%d,%v)", len(injected), injected[0], n, err)
+					// a refused send may be reported as the error it was, or have been repeated successfully
+					if err != nil {
+						if !errors.Is(err, injected[0]) {
+							rt.Fatalf("C13: %s.WriteTo returned error %v, the inner socket had failed with %v; history=%v", from.name, err, injected[0], trace)
+						}
+						if len(sent) > 1 {
+							rt.Fatalf("C13: a failed WriteTo left %d datagrams on the wire; history=%v", len(sent), trace)
+						}
+						if len(sent) == 0 {
+							continue // nothing was sent, nothing will arrive
+						}
+					} else if len(sent) == 0 {
+						rt.Fatalf("C13: %s.WriteTo(%d bytes) reported success (%d, nil) but the inner socket accepted no datagram (it refused with %v); history=%v", from.name, len(keep), n, injected[0], trace)
+					}
+				}
+				if op != 5 || err == nil {
+					if err != nil || n != len(keep) {
+						rt.Fatalf("C13: %s.WriteTo(%d bytes) returned (%d, %v), want (%d, nil); history=%v", from.name, len(keep), n, err, len(keep), trace)
+					}
+				}
 				if len(sent) != 1 {
 					rt.Fatalf("C13: one WriteTo produced %d datagrams on the wire; history=%v", len(sent), trace)
 				}
@@ -664,6 +748,23 @@ func TestVerifC13_Concurrent(t *testing.T) {
 		for i := range sBatches {
 			sBatches[i] = genBatch(per, "s")
 		}
+		// transient refusals by S's inner socket, planned per writer (every writer has its own dst, so the
+		// plan does not depend on the schedule); twice as long as the batch in case the wrapper repeats a send
+		failMode := rapid.SampledFrom([]int{0, 1, 1, 2, 2}).Draw(rt, "sendFailures") // none, sparse, heavy
+		plan := map[string][]error{}
+		planned := 0
+		if failMode > 0 {
+			for i := 0; i < nW; i++ {
+				pl := make([]error, 2*per)
+				for k := range pl {
+					if rapid.IntRange(0, []int{0, 5, 1}[failMode]).Draw(rt, "refuse") == 0 {
+						pl[k] = rapid.SampledFrom(append([]error{syscall.ENOBUFS, syscall.EAGAIN, syscall.ENOBUFS}, v13SendErrs...)).Draw(rt, "sendErr")
+						planned++
+					}
+				}
+				plan[v13Addr(3, 5000+i).String()] = pl
+			}
+		}
 		pBatches := make([][][]byte, nPW) // written through the peer P towards S
 		for i := range pBatches {
 			pBatches[i] = genBatch(per, "p")
@@ -692,7 +793,7 @@ func TestVerifC13_Concurrent(t *testing.T) {
 		}
 
 		total := nW*per + nPW*per + len(injs) + 8
-		fS := &v13Conn{local: v13Addr(1, 4001), ch: make(chan v13Pkt, total)}
+		fS := &v13Conn{local: v13Addr(1, 4001), ch: make(chan v13Pkt, total), failPlan: plan, failCalls: map[string]int{}}
 		fP := &v13Conn{local: v13Addr(2, 4002), ch: make(chan v13Pkt, total)}
 		fS.deliver = func(p v13Pkt) { fP.ch <- p }
 		fP.deliver = func(p v13Pkt) { fS.ch <- p }
@@ -712,14 +813,23 @@ func TestVerifC13_Concurrent(t *testing.T) {
 			fails = append(fails, fmt.Sprintf(f, a...))
 			failMu.Unlock()
 		}
-		writer := func(c net.PacketConn, name string, batch [][]byte, dst net.Addr, wg *sync.WaitGroup) {
+		// res[j] receives the error the j-th WriteTo of the batch returned (nil = reported success)
+		writer := func(c net.PacketConn, name string, batch [][]byte, dst net.Addr, res []error, wg *sync.WaitGroup) {
 			defer wg.Done()
-			for _, p := range batch {
+			for j, p := range batch {
 				n, err := c.WriteTo(p, dst)
+				if res != nil && err != nil {
+					res[j] = err
+					continue
+				}
 				if err != nil || n != len(p) {
 					fail("%s.WriteTo(%d bytes) returned (%d, %v)", name, len(p), n, err)
 				}
 			}
+		}
+		sRes := make([][]error, nW)
+		for i := range sRes {
+			sRes[i] = make([]error, per)
 		}
 		reader := func(c net.PacketConn, name string, out *[]v13Got, zeros *int, wg *sync.WaitGroup) {
 			defer wg.Done()
@@ -759,11 +869,11 @@ func TestVerifC13_Concurrent(t *testing.T) {
 		}
 		for i := 0; i < nW; i++ {
 			toP.Add(1)
-			go writer(S, "S", sBatches[i], v13Addr(3, 5000+i), &toP)
+			go writer(S, "S", sBatches[i], v13Addr(3, 5000+i), sRes[i], &toP)
 		}
 		for i := 0; i < nPW; i++ {
 			toS.Add(1)
-			go writer(P, "P", pBatches[i], v13Addr(4, 5500+i), &toS)
+			go writer(P, "P", pBatches[i], v13Addr(4, 5500+i), nil, &toS)
 		}
 		toS.Add(1)
 		go func() {
@@ -779,18 +889,43 @@ func TestVerifC13_Concurrent(t *testing.T) {
 		rdS.Wait()
 		rdP.Wait()
 
-		desc := fmt.Sprintf("key=%d bytes writers=%d readers=%d perWriter=%d peerWriters=%d peerReaders=%d injected=%d (junk %d, zero %d)", len(key), nW, nR, per, nPW, nPR, len(injs), junkN, zeroN)
+		failedWrites := 0
+		for i := range sRes {
+			for j, e := range sRes[i] {
+				if e == nil {
+					continue
+				}
+				failedWrites++
+				// an error may only be one the inner socket produced for this writer
+				ok := false
+				for _, pe := range plan[v13Addr(3, 5000+i).String()] {
+					if pe != nil && errors.Is(e, pe) {
+						ok = true
+					}
+				}
+				if !ok {
+					fail("S.WriteTo #%d of writer %d returned %v, which the inner socket never produced for it", j, i, e)
+				}
+			}
+		}
+		desc := fmt.Sprintf("key=%d bytes writers=%d readers=%d perWriter=%d peerWriters=%d peerReaders=%d injected=%d (junk %d, zero %d) inner send refusals planned=%d happened=%d, WriteTo errors=%d", len(key), nW, nR, per, nPW, nPR, len(injs), junkN, zeroN, planned, fS.refused, failedWrites)
 		kh := v13Hash(key, make([]byte, 8))
-		st.Case(true, fmt.Sprintf("%d/%d/%d/%d/%d/%x", nW, nR, per, nPW, len(injs), kh[:4]), []string{fmt.Sprintf("writers=%d", nW), fmt.Sprintf("readers=%d", nR)}, func() string { return desc })
+		st.Case(true, fmt.Sprintf("%d/%d/%d/%d/%d/%x", nW, nR, per, nPW, len(injs), kh[:4]), []string{fmt.Sprintf("writers=%d", nW), fmt.Sprintf("readers=%d", nR), fmt.Sprintf("sendFailures=%d", failMode)}, func() string { return desc })
 		if len(fails) > 0 {
 			rt.Fatalf("C13 concurrent: %s; %s", strings.Join(fails, "; "), desc)
 		}
 
 		// (1) wire of S: every datagram is the spec form of exactly the packets S's writers sent, to the address they gave
-		var wantWire, gotWire []v13Got
+		// (a WriteTo that reported success has exactly its own packet there; one that reported the inner
+		// socket's error has it at most once; nothing else, in particular never another writer's packet twice)
+		var wantWire, mayWire, gotWire []v13Got
 		for i, b := range sBatches {
-			for _, p := range b {
-				wantWire = append(wantWire, v13Got{p, v13Addr(3, 5000+i).String()})
+			for j, p := range b {
+				if sRes[i][j] == nil {
+					wantWire = append(wantWire, v13Got{p, v13Addr(3, 5000+i).String()})
+				} else {
+					mayWire = append(mayWire, v13Got{p, v13Addr(3, 5000+i).String()})
+				}
 			}
 		}
 		for _, d := range fS.sent {
@@ -801,21 +936,22 @@ func TestVerifC13_Concurrent(t *testing.T) {
 			gotWire = append(gotWire, v13Got{p, d.addr.String()})
 			xc.add(key, p, d.data)
 		}
+		gotWire = v13DropOptional(gotWire, wantWire, mayWire)
 		if d := v13DiffMultiset(v13Multiset(gotWire), v13Multiset(wantWire)); d != "" {
-			rt.Fatalf("C13 concurrent: decoding S's wire datagrams with the spec keystream does not give the packets its writers sent: %s; %s", d, desc)
+			rt.Fatalf("C13 concurrent: decoding S's wire datagrams with the spec keystream does not give exactly the packets whose WriteTo reported success (plus at most one copy of those that reported the inner socket's error): %s; %s", d, desc)
 		}
 		// (2) the peer (same key) received exactly those, from S's address
+		// (what was on the wire is what must arrive: decode of the wire log, attributed to S)
 		var wantP, allP []v13Got
-		for _, b := range sBatches {
-			for _, p := range b {
-				wantP = append(wantP, v13Got{p, fS.local.String()})
-			}
+		for _, d := range fS.sent {
+			p, _ := v13Decode(key, d.data)
+			wantP = append(wantP, v13Got{p, fS.local.String()})
 		}
 		for _, g := range gotP {
 			allP = append(allP, g...)
 		}
 		if d := v13DiffMultiset(v13Multiset(allP), v13Multiset(wantP)); d != "" {
-			rt.Fatalf("C13 concurrent: multiset received by the peer != multiset written through S: %s; %s", d, desc)
+			rt.Fatalf("C13 concurrent: multiset received by the peer != multiset S put on the wire: %s; %s", d, desc)
 		}
 		// (3) S's readers received exactly what the peer's writers and the foreign encoder sent; junk never surfaced
 		var wantS, allS []v13Got
@@ -846,4 +982,32 @@ func TestVerifC13_Concurrent(t *testing.T) {
 			}
 		}
 	})
+}
+
+// v13DropOptional removes from got at most one copy of every element of may that is
+// in excess of want (a packet whose WriteTo reported an error may or may not be on the wire).
+func v13DropOptional(got, want, may []v13Got) []v13Got {
+	key := func(g v13Got) string { return g.addr + "|" + string(g.payload) }
+	excess := map[string]int{}
+	for _, g := range got {
+		excess[key(g)]++
+	}
+	for _, w := range want {
+		excess[key(w)]--
+	}
+	allow := map[string]int{}
+	for _, m := range may {
+		allow[key(m)]++
+	}
+	var out []v13Got
+	for _, g := range got {
+		k := key(g)
+		if excess[k] > 0 && allow[k] > 0 {
+			excess[k]--
+			allow[k]--
+			continue
+		}
+		out = append(out, g)
+	}
+	return out
 }
